@@ -4,6 +4,7 @@ import math
 import time
 
 from extract import counter_styles, first_letter_table, list_hints
+from harness import c15_content as CF
 from harness import c15_desc as DV
 from harness import c15_dom as D
 from harness import c15_judges as J
@@ -132,6 +133,9 @@ def toc_problems(gen, document, passes):
                                 f'{targets[target] + 1} ({expected!r})')
         elif text:
             problems.append(f'entry {href} has no target but prints {text!r}')
+    for href, text, index in T.observe_own_pages(document):
+        if text.strip() != str(index + 1):
+            problems.append(f'entry {href} on page {index + 1} prints counter(page) = {text.strip()!r}')
     for href, text in T.observe_pages_refs(document):
         if href[1:] in targets and text.strip() != str(n_pages):
             problems.append(f'entry {href} prints target-counter(…, pages) = {text.strip()!r}, the document has '
@@ -155,7 +159,8 @@ class C15(PropCheck):
     id = 'C15'
     extractors = (counter_styles.generate, first_letter_table.generate, list_hints.generate)
     modules = ('WpModel.Props.C15', 'WpModel.Props.C15Pages', 'WpModel.Props.C15Desc', 'WpModel.Props.C15Text',
-               'WpModel.Props.C15Lists', 'WpModel.Props.C15PagesTotal', 'WpModel.Witness.C15')
+               'WpModel.Props.C15Lists', 'WpModel.Props.C15PagesTotal', 'WpModel.Props.C15Content',
+               'WpModel.Witness.C15')
     trusted_base = (
         'modelled, not verified: css/validation/descriptors.py (counter-style validators), css/targets.py '
         '(cache_target_page_counters, lookup/store/check_pending), layout/page.py (counter section of make_page), '
@@ -202,6 +207,7 @@ class C15(PropCheck):
         finally:
             S.rv_line = original
         self._lists(run)
+        self._content_functions(run)
         self._descriptors(run)
         self._target_text(run)
         self._cache_target(run)
@@ -470,6 +476,9 @@ class C15(PropCheck):
                     labels_sec.add(S.rv_line('ua', {}, 0, ('string', '')), 'ok ' + S.enc(text),
                                    meta={'kind': 'toc', 'html': gen['html'], 'style': gen['style']},
                                    nontrivial=False, tags=['undefined-target'])
+            for href, text, index in T.observe_own_pages(document):
+                labels_sec.add(S.rv_line('ua', {}, index + 1, 'decimal'), 'ok ' + S.enc(text.strip()),
+                               meta=meta_toc, nontrivial=index > 0, tags=['own-page'])
             for href, text in T.observe_pages_refs(document):
                 if href[1:] in targets:
                     labels_sec.add(S.rv_line('ua', {}, n_pages, 'decimal'), 'ok ' + S.enc(text.strip()),
@@ -522,6 +531,21 @@ class C15(PropCheck):
             line, out, text = LS.cprop_case(run.rng)
             cprop.add(line, out, meta={'kind': 'cprop', 'text': text}, nontrivial=out.startswith('('),
                       tags=['accepted' if out.startswith('(') else out.split(' ')[0]])
+
+    def _content_functions(self, run):
+        sec = run.section(
+            'content-functions',
+            'get_content_list_token (css/utils.py: check_counter_function, get_target) on real tinycss2 function '
+            'tokens: counter / counters / target-counter / target-counters / target-text with counter names in every '
+            'ASCII case, every style spelling, optional commas, wrong arities and token soup, against '
+            'Model/ContentFns.contentFn; non-trivial = the token is accepted')
+        for _ in range(run.n(2500, 25000)):
+            text = CF.gen_function(run.rng)
+            case = CF.cfn_case(text)
+            if case is None:
+                continue
+            sec.add(case[0], case[1], meta={'kind': 'cfn', 'text': text}, nontrivial=case[1] != 'none',
+                    tags=[text.split('(')[0].lower(), 'accepted' if case[1] != 'none' else 'rejected'])
 
     def _descriptors(self, run):
         sec = run.section(
@@ -607,6 +631,10 @@ class C15(PropCheck):
             return self._judge_text(meta['html'])
         if kind == 'ct':
             return J.cache_target_clause(meta['line'])
+        if kind == 'cfn':
+            return CF.function_clause(meta['text'])
+        if kind == 'dv':
+            return J.descriptor_clause(meta['descriptor'], meta['text'])
         if kind == 'rule':
             return J.rule_clause(meta['css'])
         return None
@@ -640,13 +668,18 @@ class C15(PropCheck):
         name = meta['name'] if isinstance(meta['name'], str) else tuple(
             tuple(x) if isinstance(x, list) else x for x in meta['name'])
         cs = S.parse_styles(meta['css'], meta['base'])
-        if not tame(cs):
+        # the table css-counter-styles-3 gives for the sheet, read independently of the validators (so that a
+        # descriptor wrongly dropped or altered shows in what is printed); the implementation's own when the
+        # reference declines
+        spec_cs = SP.spec_styles(meta['css'], S.parse_styles('', meta['base'])) if meta['css'] else None
+        ref_cs = spec_cs if spec_cs is not None else cs
+        if not tame(cs) or not tame(ref_cs):
             return None
         value = meta['value']
         if meta['kind'] == 'rv':
-            impl, ref = S.out_text(lambda: cs.render_value(value, name)), SP.render(cs, value, name)
+            impl, ref = S.out_text(lambda: cs.render_value(value, name)), SP.render(ref_cs, value, name)
         else:
-            impl, ref = S.out_text(lambda: cs.render_marker(name, value)), SP.marker(cs, value, name)
+            impl, ref = S.out_text(lambda: cs.render_marker(name, value)), SP.marker(ref_cs, value, name)
         if ref is None:
             return None
         if impl != 'ok ' + S.enc(ref):
@@ -785,6 +818,25 @@ class C15(PropCheck):
                 what = self._judge_style(meta)
                 if what and add(what, {'meta': meta}, css):
                     return found
+        # 3b. descriptors against the specification's grammar; counter names through target-counter()
+        for _ in range(1500):
+            _line, _out, dname, text = DV.dv_case(run.rng)
+            run.search_stats['evaluations'] += 1
+            what = J.descriptor_clause(dname, text)
+            if what and add(what, {'meta': {'kind': 'dv', 'descriptor': dname, 'text': text}}, f'{dname}:{text}'):
+                return found
+            if what:
+                break
+        for name in CF.NAMES:
+            for forward in (True, False):
+                for sep in (None, '.'):
+                    run.search_stats['evaluations'] += 1
+                    try:
+                        what = CF.relation_clause(name, run.rng.choice([None, 'lower-roman']), forward, sep)
+                    except Exception as exc:  # noqa: BLE001
+                        what = f'build raised {type(exc).__name__}: {exc}'
+                    if what and add(what, {'meta': {'kind': 'cfn', 'text': f'target-counter("#t", {name})'}}, what):
+                        return found
         # 4. documents: list attributes, scoping, then page numbers
         for _ in range(300):
             if time.time() > deadline:
@@ -853,6 +905,7 @@ class C15(PropCheck):
             'counter-set-before-increment': finding_set_before_increment,
             'li-value-nests-scope': finding_li_value_nests,
             'ol-start-not-integer': finding_ol_start_not_integer,
+            'target-counter-non-ident-style-crash': finding_target_counter_style_crash,
             'target-text-open-target-empty': finding_open_target_text,
         }
 
@@ -956,6 +1009,16 @@ def finding_ol_start_not_integer():
     return [t for _, t in generated_texts_of('ol-start-not-integer')] == ['0. ', '1. ', '0. ']
 
 
+def finding_target_counter_style_crash():
+    """target-counter(#t, c, "x"): get_target keeps get_keyword(token) = None as the style -> AssertionError."""
+    html, context, counter_style = D.build(corpus_html('target-counter-non-ident-style-crash'))
+    try:
+        D.impl_texts(html, context, counter_style)
+    except AssertionError:
+        return True
+    return False
+
+
 def finding_open_target_text():
     """target-text() of the element itself: its box has no children yet when ::after is computed."""
     case = X.text_case(corpus_html('target-text-open-target-empty'))
@@ -969,7 +1032,9 @@ MANIFEST = {
     'technique': 'Lean 4 theorems over executable models of css/counters.py (render_value, render_marker, '
                  'resolve_counter), the @counter-style descriptor validators, preprocess_descriptors and rule '
                  'registration, build.py counter scoping, the ol/li presentational hints of find_style_attributes with '
-                 'the counter() property validator and the cascade of the counter properties on list elements, '
+                 'the counter() property validator and the cascade of the counter properties on list elements, the '
+                 'parsers of counter() / counters() / target-counter() / target-counters() / target-text() '
+                 '(check_counter_function, get_target) on real tinycss2 tokens, '
                  'target-counter / target-text evaluation order, TargetCollector.cache_target_page_counters and the '
                  'counter section of make_page, the layout_document re-pagination loop; the UA counter-style table, '
                  'the first-letter punctuation table and the hint table (AST of find_style_attributes, constant parts '
@@ -987,6 +1052,9 @@ MANIFEST = {
             'validators accept is what render_value can read (descending additive weights, ordered ranges incl. '
             'range:auto, enough symbols for every registered non-extends style: steps 2-3 never raise; collecting '
             'the descriptors of a rule never raises); too few symbols fall back to decimal with the original value; '
+            'the counter name of every counter function is the identifier as written (never case-folded); '
+            'update_counters agrees with the css-lists-3 order on every counter an element does not both set and '
+            'increment; cache_target_page_counters re-parses a box with its own page counters; '
             '<ol start=s> makes its items count s, s+1, … for every integer s (0 and negatives included) and <li '
             'value=v> prints v; the stack machine '
             'of update_counters / element_to_box produces exactly the texts of a reference semantics (frames) for '
@@ -1000,7 +1068,8 @@ MANIFEST = {
             'the abstract inputs. Findings kept as witnesses + corpus/C15: update_counters applies counter-set before '
             'counter-increment (css-lists-3 orders increment, then set); <li value> is hinted as counter-reset and '
             'nests a list-item scope inside a flat list; <ol start> / <li value> that are not CSS integers (1.5, abc) '
-            'number from 0; target-text() of the element itself or an ancestor prints nothing; a real document '
+            'number from 0; target-counter(…, "x") (a non-identifier style) fails an assert while boxes are built; '
+            'target-text() of the element itself or an ancestor prints nothing; a real document '
             'oscillates past max_loops=8 '
             '(Witness.C15.oscillation: reaching the page fix point is not provable). The link from the local flag '
             'theorems (C15Pages) to World.Sound of fixpoint_consistent goes through an abstract layout function and '
